@@ -143,6 +143,9 @@ type Sidecar struct {
 	RejectCfg int
 	DropPost  string // "", "any", "add", "transfer"
 	LoseReply string
+	PostFail  int // targets updates are answered with an error for this many cycles (everything else works)
+
+	LastCode map[uint64]int // answer of the proxy to the last scrape of a target (simulated Prometheus' view)
 }
 
 // CycleRec is what the harness observed about one cycle.
@@ -204,6 +207,15 @@ type World struct {
 	ScaleMoves int
 	farmCli    *http.Client
 	outSeq     int
+
+	// scrapes that are kept in flight (the target does not answer until released)
+	holdGate  chan struct{}
+	holdSet   map[uint64]bool
+	holdArr   chan uint64
+	holdWait  sync.WaitGroup
+	holdN     int
+	InFlight  int // scrapes that were in flight while a cycle ran
+	StopCheck []string
 }
 
 // promTarget is one target the shard's (simulated) Prometheus scrapes, as listed in the generated file.
@@ -246,7 +258,23 @@ func (f farmTransport) RoundTrip(r *http.Request) (*http.Response, error) {
 		f.w.ScrapedIn = map[uint64]int{}
 	}
 	f.w.ScrapedIn[h] = f.w.ScrapeRound
+	gate, arr := f.w.holdGate, f.w.holdArr
+	if !f.w.holdSet[h] {
+		gate = nil
+	} else {
+		f.w.holdSet[h] = false // only the request the harness has just started is kept in flight
+		f.w.holdN++
+	}
 	f.w.mu.Unlock()
+	if gate != nil {
+		// this scrape stays in flight until the harness releases it
+		arr <- h
+		select {
+		case <-gate:
+		case <-r.Context().Done():
+			return nil, r.Context().Err()
+		}
+	}
 	if err != nil || t == nil {
 		return nil, fmt.Errorf("no such host %s", host)
 	}
@@ -426,6 +454,10 @@ func (w *World) apiPost(ord int) func(string, interface{}, interface{}) error {
 			w.mu.Lock()
 			w.cur.Posts[ord] = append(w.cur.Posts[ord], summarizePost(body))
 			w.mu.Unlock()
+			if sc.PostFail > 0 {
+				// e.g. the shard's Prometheus refuses the reload that follows a target update
+				return fmt.Errorf("status code is 503 (injected)")
+			}
 			if matchPost(sc.DropPost, sc, body) {
 				w.mu.Lock()
 				w.cur.FaultFired = append(w.cur.FaultFired, fmt.Sprintf("dropPost/%s@%d", sc.DropPost, ord))
@@ -830,6 +862,67 @@ func (w *World) Scrape(i int) {
 	}
 	sc := w.Shards[i]
 	for _, pt := range sc.promTargets() {
+		w.scrapeOne(i, sc, pt)
+	}
+}
+
+// ScrapeHeld starts scrapes of shard i (of target hash, or of every target when hash is 0) that stay in flight:
+// the targets do not answer before ReleaseHeld, which the next cycle calls when it is over.
+func (w *World) ScrapeHeld(i int, hash uint64) {
+	if i >= len(w.Shards) {
+		return
+	}
+	sc := w.Shards[i]
+	w.mu.Lock()
+	if w.holdGate == nil {
+		w.holdGate, w.holdSet, w.holdArr = make(chan struct{}), map[uint64]bool{}, make(chan uint64, 64)
+	}
+	w.mu.Unlock()
+	for _, pt := range sc.promTargets() {
+		if hash != 0 && pt.hash != hash {
+			continue
+		}
+		w.mu.Lock()
+		t := w.Farm[pt.hash]
+		ok := t != nil && !w.holdSet[pt.hash]
+		if ok {
+			w.holdSet[pt.hash] = true
+		}
+		arr := w.holdArr
+		w.mu.Unlock()
+		if !ok {
+			continue
+		}
+		pt := pt
+		w.holdWait.Add(1)
+		done := make(chan struct{})
+		go func() {
+			defer w.holdWait.Done()
+			defer close(done)
+			w.scrapeOne(i, sc, pt)
+		}()
+		select {
+		case <-arr: // the request reached the target
+		case <-done: // it never got there (rejected by the proxy)
+		case <-time.After(5 * time.Second):
+		}
+	}
+}
+
+// ReleaseHeld lets the targets answer the scrapes that were kept in flight and waits for them to end.
+func (w *World) ReleaseHeld() {
+	w.mu.Lock()
+	gate := w.holdGate
+	w.holdGate, w.holdSet, w.holdN = nil, nil, 0
+	w.mu.Unlock()
+	if gate != nil {
+		close(gate)
+		w.holdWait.Wait()
+	}
+}
+
+func (w *World) scrapeOne(i int, sc *Sidecar, pt promTarget) {
+	{
 		req := httptest.NewRequest("GET", pt.url, nil)
 		rec := httptest.NewRecorder()
 		func() {
@@ -845,6 +938,10 @@ func (w *World) Scrape(i int) {
 				w.Attempts[i][pt.hash]++
 			}
 		}
+		if sc.LastCode == nil {
+			sc.LastCode = map[uint64]int{}
+		}
+		sc.LastCode[pt.hash] = rec.Code
 		w.mu.Unlock()
 		if rec.Code == 200 {
 			n := int64(0)
@@ -853,7 +950,9 @@ func (w *World) Scrape(i int) {
 					n++
 				}
 			}
+			w.mu.Lock()
 			sc.ingested[pt.hash] = n
+			w.mu.Unlock()
 		}
 		_, _ = io.Copy(ioutil.Discard, rec.Body)
 	}
@@ -944,6 +1043,16 @@ func (w *World) Cycle() *CycleRec {
 	case <-time.After(30 * time.Second):
 		w.Crash = "cycle did not complete"
 	}
+	w.mu.Lock()
+	held := w.holdN
+	w.holdN = 0
+	w.mu.Unlock()
+	if held > 0 {
+		w.InFlight += held
+		// the updates of this cycle were applied while these scrapes were in flight; now they end
+		w.processDelivered()
+		w.ReleaseHeld()
+	}
 	rec.After = w.snapshot()
 	w.processDelivered()
 	for _, f := range rec.FaultFired {
@@ -972,6 +1081,9 @@ func (w *World) Cycle() *CycleRec {
 		if sc.RejectCfg > 0 {
 			sc.RejectCfg--
 		}
+		if sc.PostFail > 0 {
+			sc.PostFail--
+		}
 	}
 	w.Cycles = append(w.Cycles, rec)
 	return rec
@@ -979,6 +1091,7 @@ func (w *World) Cycle() *CycleRec {
 
 // Close stops the coordinator and removes the store directories.
 func (w *World) Close() {
+	w.ReleaseHeld()
 	if w.cancel != nil {
 		w.cancel()
 	}
@@ -1008,6 +1121,16 @@ func (w *World) Do(a Action) {
 		w.Scrape(a.Shard)
 	case "scrapeAll":
 		w.ScrapeAll()
+	case "scrapeHeld":
+		w.ScrapeHeld(a.Shard, a.Hash)
+	case "postFail":
+		if a.Shard < len(w.Shards) {
+			w.Shards[a.Shard].PostFail = a.K
+		}
+	case "stop":
+		ci := *w.coordCfg
+		ci.ExtraConfig = &prom.ExtraConfig{StopScrapeReason: a.Match}
+		w.coordCfg = &ci
 	case "grow":
 		w.mu.Lock()
 		if t := w.Farm[a.Hash]; t != nil {
@@ -1079,6 +1202,6 @@ func (w *World) Do(a Action) {
 // ClearFaults ends every injected fault.
 func (w *World) ClearFaults() {
 	for _, sc := range w.Shards {
-		sc.Unready, sc.GetFail, sc.RejectCfg, sc.DropPost, sc.LoseReply = 0, 0, 0, "", ""
+		sc.Unready, sc.GetFail, sc.RejectCfg, sc.DropPost, sc.LoseReply, sc.PostFail = 0, 0, 0, "", "", 0
 	}
 }
